@@ -153,7 +153,7 @@ def c13(sn, world):
                 out.append(("backpointer", f"{n} stored in a composite product space but its composite pointer resolves elsewhere"))
     # --- handles of merged composites resolve to one container
     groups = {}
-    for hn, g in getattr(world, "merge_group", {}).items():
+    for hn, g in getattr(sn, "merge_group", {}).items():
         groups.setdefault(g, []).append(hn)
     for g, hs in groups.items():
         cs = {sn.handles[h]["cont"] for h in hs if h in sn.handles}
